@@ -52,6 +52,11 @@ struct op_apply::substate
     m_value->get_origin ().set_next (m_scon, std::move (stk));
   }
 
+  ~substate ()
+  {
+    m_scon.des <op_apply::rendezvous> (m_value->get_rdv_ll ());
+  }
+
   stack::uptr
   next ()
   {
